@@ -10,6 +10,7 @@
 (* fee is accounted for by RunTxA (sponsor debited first); in most rounds   *)
 (* the sponsor is an account the actions never touch, so "the same state"   *)
 (* is literal and the three output lists must be equal to each other.       *)
+(* "fault" lines: the two APIs over a VM whose reads fail once (see below). *)
 EXTENDS Transfer, TLC, Json, IOUtils
 
 VARIABLES l, bal, diag
@@ -58,7 +59,37 @@ TRound ==
   /\ diag' = RoundDiag
   /\ bal' = Ledger(T.post)
 
-TraceNext == TReset \/ TRound
+(* ---- fault dimension: the same two APIs served by a VM whose read of one balance record fails once with a transient
+   (not "not found") error.  T.execfault / T.simfault: the injected failure was actually hit while that API ran.
+   Either the API reports an error or it answers exactly the fold's outputs on the real state T.pre; in particular a
+   failed read is never taken for "no record". *)
+IsPrefix(s, t) == Len(s) <= Len(t) /\ s = SubSeq(t, 1, Len(s))
+
+FaultDiag ==
+  LET fold == ActionFold(Ledger(T.pre), T.actor, T.actions, MAXT)
+      ex   == T.exec
+      exErr == ex.rpcerr # "" \/ ex.failed
+  IN
+  (* ExecuteActions *)
+  (IF ex.rpcerr # "" /\ ~T.execfault THEN {"execute-rpc-error"} ELSE {}) \cup
+  (IF ~IsPrefix(ex.outs, fold.outs)
+     THEN {IF T.execfault THEN "execute-outputs-from-partially-read-state" ELSE "execute-outputs"} ELSE {}) \cup
+  (IF ~exErr /\ (ex.outs # fold.outs \/ ~fold.ok)
+     THEN {IF T.execfault THEN "execute-outputs-from-partially-read-state" ELSE "execute-failure-flag"} ELSE {}) \cup
+  (* an action-level failure must be the fold's failure (same position), unless it carries the injected read error *)
+  (IF ex.rpcerr = "" /\ ex.failed /\ ~T.execinjected /\ (fold.ok \/ Len(ex.outs) # Len(fold.outs))
+     THEN {IF T.execfault THEN "read-failure-treated-as-absence" ELSE "execute-failure-flag"} ELSE {}) \cup
+  (* SimulateActions *)
+  (IF T.sim.ok /\ (T.sim.outs # fold.outs \/ ~fold.ok)
+     THEN {IF T.simfault THEN "simulate-outputs-from-partially-read-state" ELSE "simulate-outputs"} ELSE {}) \cup
+  (IF ~T.sim.ok /\ fold.ok /\ ~T.simfault THEN {"simulate-failed"} ELSE {})
+
+TFault ==
+  /\ Ev("fault")
+  /\ diag' = FaultDiag
+  /\ UNCHANGED bal
+
+TraceNext == TReset \/ TRound \/ TFault
 TraceSpec == TraceInit /\ [][TraceNext]_tvars
 
 DiagEmpty == diag = {}
